@@ -11,16 +11,18 @@ namespace
   const char* cyc_names[] = { "V", "F", "W" };
   const char* adapt_names[] = { "fixed", "min_energy", "min_defect" };
   // rho_max per cycle.  DESIGN C09 proposed 0.5/0.35/0.2 from a 1-D calibration and asks to fix the numbers after calibrating
-  // on the pinned tree: 960 generated 2-D/3-D cases gave at most 0.33 (V) / 0.31 (F) / 0.14 (W) for fixed and min-energy
-  // CGC (worst: P1 on triangles, coarse mesh jittered by 10%, two Jacobi steps); feat3's F-cycle visits the coarse levels
-  // less often than the textbook F-cycle, so its rate is close to the V-cycle's.  Bounds = observed maximum * >=1.4.
+  // on the pinned tree: 960 (quick domain) + 3000 (deep domain) generated 2-D/3-D cases gave at most 0.341 (V) / 0.331 (F) /
+  // 0.171 (W) for fixed and min-energy CGC (worst family: P1 on triangles, coarse mesh jittered by 10%, two Jacobi steps);
+  // feat3's F-cycle visits the coarse levels less often than the textbook F-cycle, so its rate is close to the V-cycle's.
+  // Bounds = observed maximum * ~1.4.
   const double rho_max[] = { 0.5, 0.45, 0.25 };
   // level independence: rho(L) <= rho(2) + 0.25 (the two-level rate on coarse problems of 25..41 unknowns is untypically
-  // small: observed differences up to 0.19), and from the 4th level on every added level adds at most 0.08 (observed 0.062,
-  // decaying 0.088/0.062/0.040/0.023 per level in the worst family)
-  const double level_slack = 0.25, level_increment = 0.08;
+  // small: observed differences up to 0.193), and from the 5th level on every added level adds at most 0.1 (observed per-level
+  // increments in the worst family decay 0.110/0.085/0.062/0.027; a first version demanded <= 0.08 from the 4th level on,
+  // calibrated on 960 cases only, and raised a false alarm at 0.084 on a hierarchy whose rates were all below 0.21)
+  const double level_slack = 0.25, level_increment = 0.1;
   // min-defect CGC minimises the defect norm and thereby under-relaxes the smooth error components (two-level rates 0.2-0.45,
-  // up to 0.53 on 5 levels); the property promises level independence for the cycle as such, so for this variant only
+  // up to 0.58 on 6 levels); the property promises level independence for the cycle as such, so for this variant only
   // convergence with a rate clearly below 1 is demanded
   const double rho_max_mindef = 0.8;
 
@@ -29,8 +31,10 @@ namespace
   {
     ConvParams p; int shape = t.pick({3, 2, 2});
     const int maxref = shape == 2 ? (g_thorough ? 5 : 4) : (g_thorough ? 7 : 6);
-    p.crs_ref = 1 + t.range(0, shape == 2 ? 1 : 2);
-    p.nlev = 2 + t.range(0, std::min(4, maxref - p.crs_ref - 1));
+    // coarse mesh: refinement level 0 is the single cell (two triangles) whose vertices all lie on the Dirichlet boundary,
+    // i.e. a coarse level without free dofs (what tutorial_05 builds for level_min = 0)
+    static const int crs_tab[] = { 1, 2, 0, 3 }; p.crs_ref = crs_tab[t.range(0, shape == 2 ? 2 : 3)];
+    const unsigned nlev_raw = t.raw();
     p.cyc = t.pick({1, 1, 1}); p.nu = 2 + t.range(0, 2);
     static const double om[] = { 0.7, 0.6, 0.8 }; int omk = t.range(0, 2);
     p.adapt = t.pick({3, 2, 1}); p.peak = t.flag() ? 1 : 0; p.jitter = t.pick({2, 1, 1}); p.seed = t.raw() % 1000u;
@@ -40,10 +44,14 @@ namespace
     // that hierarchy, not of the multigrid.  Jitter is limited to 10% and omega = 0.8 is only used on undistorted meshes.
     if(omk == 2 && p.jitter > 0) omk = 0;
     p.omega = om[omk];
+    // known finding c09-adapt-zero-cor: on a coarse level without free dofs the coarse grid correction vanishes exactly and the
+    // adaptive step length is 0/0.  Steering: adaptive CGC is then combined with the next finer coarse mesh.
+    if(p.crs_ref == 0 && p.adapt != 0 && c.excl("c09-adapt-zero-cor")) p.crs_ref = 1;
+    p.nlev = 2 + nlev_raw % (std::min(4, maxref - p.crs_ref - 1) + 1);
     c.desc.set("shape", shape_names[shape]); c.desc.set("coarse_refinement", p.crs_ref); c.desc.set("levels", p.nlev); c.desc.set("cycle", cyc_names[p.cyc]);
     c.desc.set("smoothing_steps", p.nu); c.desc.set("omega", p.omega); c.desc.set("adapt", adapt_names[p.adapt]); c.desc.set("peak_smoother", p.peak); c.desc.set("jitter", p.jitter); c.desc.set("seed", p.seed);
     c.label(std::string("shape:") + shape_names[shape]); c.label(std::string("cycle:") + cyc_names[p.cyc]); c.label("levels:" + std::to_string(p.nlev));
-    c.label(std::string("adapt:") + adapt_names[p.adapt]); c.label(p.peak ? "peak:given" : "peak:pre+post"); c.label(p.jitter ? "mesh:jittered" : "mesh:regular"); c.label("nu:" + std::to_string(p.nu));
+    c.label(std::string("adapt:") + adapt_names[p.adapt]); c.label(p.peak ? "peak:given" : "peak:pre+post"); c.label(p.jitter ? "mesh:jittered" : "mesh:regular"); c.label(p.crs_ref == 0 ? "coarse:no-free-dofs" : "coarse:ref" + std::to_string(p.crs_ref)); c.label("nu:" + std::to_string(p.nu));
     c.nontrivial = p.nlev >= 3; c.op = std::string("conv-") + cyc_names[p.cyc];
     c.announce();
     ConvFn fn[] = { conv_quad, conv_tria, conv_hexa };
@@ -55,8 +63,10 @@ namespace
       VF_CHECK(r.rho[k] <= bound, cyc_names[p.cyc] << "-cycle on " << (k + 2) << " levels (" << r.dofs[k] << " dofs): defect reduction per cycle " << r.rho[k] << " exceeds " << bound << "; rates by depth: " << os.str());
     if(p.adapt != 2)
     {
-      VF_CHECK(r.rho.back() <= r.rho.front() + level_slack, cyc_names[p.cyc] << "-cycle: rate on " << p.nlev << " levels " << r.rho.back() << " exceeds the two-level rate " << r.rho.front() << " by more than " << level_slack << "; rates by depth: " << os.str());
-      for(size_t k = 2; k < r.rho.size(); ++k)
+      // reference depth: two levels; three where the coarse level has no free dofs (the two-level method is then just the smoother on one unknown)
+      const size_t kref = (p.crs_ref == 0 && r.rho.size() > 1) ? 1 : 0;
+      VF_CHECK(r.rho.back() <= r.rho[kref] + level_slack, cyc_names[p.cyc] << "-cycle: rate on " << p.nlev << " levels " << r.rho.back() << " exceeds the " << (kref + 2) << "-level rate " << r.rho[kref] << " by more than " << level_slack << "; rates by depth: " << os.str());
+      for(size_t k = 3; k < r.rho.size(); ++k)
         VF_CHECK(r.rho[k] <= r.rho[k - 1] + level_increment, cyc_names[p.cyc] << "-cycle: going from " << (k + 1) << " to " << (k + 2) << " levels raises the rate by more than " << level_increment << "; rates by depth: " << os.str());
     }
   }
